@@ -1223,3 +1223,14 @@ M("n76", "neutral", [], "Images: identity collisions re-checked by a validator b
         self.header.serialize(data)
         data["payload"] = {}
         data["payload"]["images"] = {}'''))
+
+M("d15", "fire", ["C02", "C09"], "D15 reverted: a fresh Images() stays at header version 0.0",
+  (IM, '''        # a new manifest is written in the current format: enforce its rules (image uniqueness) from the start
+        self.header.set_current_version()
+''', ''))
+M("d15b", "fire", ["C02", "C09"], "fresh Images() only switches to the current version when a flag is given",
+  (IM, '''        # a new manifest is written in the current format: enforce its rules (image uniqueness) from the start
+        self.header.set_current_version()
+''', '''        if getattr(self, "_strict", False):
+            self.header.set_current_version()
+'''))
